@@ -40,7 +40,7 @@ type c23Snap struct {
 
 func streamC23(h *H) {
 	ctx := context.Background()
-	n := h.N(130, 6000)
+	n := h.N(160, 6000)
 	var repo *repository.Repository
 	var inner backend.Backend
 	var rec *RecBackend
@@ -97,12 +97,25 @@ func streamC23(h *H) {
 			p = data.ExpirePolicy{Tags: data.TagLists{[]data.TagList{{"zz"}, {"a"}, {"b"}, {"a", "b"}, {""}}[h.Intn(5)]}}
 		case r < 6:
 			p = data.ExpirePolicy{Within: data.Duration{Days: -1}}
+		case r < 13: // small policies that really remove something
+			switch h.Intn(5) {
+			case 0:
+				p = data.ExpirePolicy{Last: 1 + h.Intn(2)}
+			case 1:
+				p = data.ExpirePolicy{Daily: 1 + h.Intn(2)}
+			case 2:
+				p = data.ExpirePolicy{Yearly: 1, Tags: data.TagLists{{"a"}}}
+			case 3:
+				p = data.ExpirePolicy{Monthly: 1 + h.Intn(2), Last: 1}
+			default:
+				p = data.ExpirePolicy{Within: data.Duration{Days: 30}, Weekly: 1}
+			}
 		default:
 			p = h.c22Policy(false)
 		}
 		unsafe := h.Intn(7) == 0
-		dry := h.Intn(3) == 0
-		nolock := h.Intn(12) == 0
+		dry := h.Intn(4) == 0
+		nolock := h.Intn(20) == 0
 		f := &data.SnapshotFilter{}
 		if h.Intn(5) < 2 {
 			switch h.Intn(4) {
@@ -191,8 +204,8 @@ func streamC23(h *H) {
 		h.c24RecFilter(f)
 		h.Rec("gb", B(gb.Tag), B(gb.Host), B(gb.Path))
 
-		// explicit ids
-		if h.Intn(4) == 0 {
+		// explicit ids (a filter next to explicit ids is an error: mostly without)
+		if h.Intn(4) == 0 && (f.Empty() || h.Intn(4) == 0) {
 			na := 1 + h.Intn(3)
 			for j := 0; j < na; j++ {
 				switch r := h.Intn(20); {
